@@ -155,6 +155,25 @@ theorem cadence (i r : Nat) (hr : r < 2 * i / 10) :
     (i : Int) - i / 10 ≤ (i : Int) + ((r : Int) - i / 10) ∧ (i : Int) + ((r : Int) - i / 10) ≤ (i : Int) + i / 10 := by
   omega
 
+/-- The same for the expression *as it stands in the source*: `Facts.gen_pollPeriod` is
+(*Store).run's ticker period translated by the fact extractor (Go's truncating division,
+`intn` standing for rand.Intn).  For every interval for which rand.Intn's argument is positive
+and every function that answers within `[0, n)`, the period handed to the ticker lies within
+a tenth of the interval on either side; and it is computed once, before the loop
+(`gen_pollPeriod_ok`: one `newTicker` call in straight-line code, no `Reset`). -/
+theorem cadence_generated (i : Int) (intn : Int → Int) (hi : 0 < 2 * i / 10)
+    (hd : ∀ n, 0 < n → 0 ≤ intn n ∧ intn n < n) :
+    i - i / 10 ≤ Facts.gen_pollPeriod i intn ∧ Facts.gen_pollPeriod i intn ≤ i + i / 10 ∧
+    Facts.gen_pollPeriod_ok = true := by
+  have h0 : 0 ≤ i := by omega
+  have h2 : (0 : Int) ≤ 2 * i := by omega
+  have := hd (2 * i / 10) hi
+  simp only [Facts.gen_pollPeriod, Int.tdiv_eq_ediv_of_nonneg h0, Int.tdiv_eq_ediv_of_nonneg h2]
+  refine ⟨by omega, by omega, by decide⟩
+
+/-- non-vacuity of `cadence_generated`: a 5 s interval and the largest draw give 5.5 s less one tick -/
+example : Facts.gen_pollPeriod 5000000000 (fun n => n - 1) = 5499999999 := by decide
+
 /-- non-vacuity of `cadence` and `poll_ok_fresh`'s hypotheses -/
 example : (7 : Nat) < 2 * 50 / 10 := by decide
 
